@@ -421,7 +421,17 @@ func genCacheOps(r *Rng, n int, keys []string, faults bool) []Step {
 		case 2:
 			out = append(out, Step{Op: "replace", S: genSubject(r), K: k, R: genRepl(r, countGroups(k)), Src: r.Pick([]string{"const", "concat", "const", "emptyset"})})
 		case 3:
-			out = append(out, Step{Op: "compilebad", K: r.Pick([]string{"(", "a(", "[a", "a**", "(?P<n", "\\", ")"})})
+			switch r.Intn(4) {
+			case 0:
+				// history noise: evaluations that use the package's other shared resources
+				// (the builder pool) and end in one of the package's own panics half-way
+				out = append(out, Step{Op: "noise", N: r.Intn(6), S: genSubject(r)})
+			case 1:
+				// a numeric constant where a pattern is expected
+				out = append(out, Step{Op: "numpat", N: r.Intn(3)})
+			default:
+				out = append(out, Step{Op: "compilebad", K: r.Pick([]string{"(", "a(", "[a", "a**", "(?P<n", "\\", ")", "a)", "(a"})})
+			}
 		}
 	}
 	return out
